@@ -20,7 +20,8 @@ pub struct Scn {
     pub kind: u8,
     pub n: u16,
     /// damage: 0 truncate at `a`, 1 extend by `a` bytes, 2 flip bit `a`, 3 flip bits `a` and `b`,
-    /// 4 replace by `a` random bytes, 5 none, 6 all truncations (systematic)
+    /// 4 replace by `a` random bytes, 5 none, 6 all truncations (systematic), 7 a slice of up to 48 bytes starting at `a`
+    /// is repeated in place (identifiers, lists and numbers grow), 8 such a slice is cut out
     pub damage: u8,
     pub a: u32,
     pub b: u32,
@@ -121,7 +122,21 @@ fn build(scn: &Scn) -> Vec<u8> {
 fn damage(base: &[u8], scn: &Scn, variant: usize) -> Vec<u8> {
     let mut b = base.to_vec();
     let mut st = scn.r ^ 0xABCD;
-    match scn.damage % 7 {
+    match scn.damage % 9 {
+        7 | 8 if b.len() > 2 => {
+            let start = scn.a as usize % (b.len() - 1);
+            let len = (1 + scn.b as usize % 48).min(b.len() - start);
+            if scn.damage % 9 == 7 {
+                let slice: Vec<u8> = b[start..start + len].to_vec();
+                let reps = 1 + (scn.r % 3) as usize;
+                for _ in 0..reps {
+                    b.splice(start + len..start + len, slice.iter().copied());
+                }
+            } else {
+                b.drain(start..start + len);
+            }
+        }
+        7 | 8 => {}
         0 => b.truncate(scn.a as usize % (b.len() + 1)),
         1 => {
             for _ in 0..(scn.a % 200) {
@@ -186,14 +201,14 @@ impl Harness for Parsers {
 
     fn generate(seed: u64, _tier: Tier, _prop: &str) -> Scn {
         let mut r = Prng::stream(seed, "scenario");
-        Scn { family: r.below(6) as u8, kind: r.below(6) as u8, n: *r.pick(&[0u16, 1, 2, 3, 10, 70, 255, 300, 1000, 3000]), damage: r.below(7) as u8, a: r.next_u64() as u32, b: r.next_u64() as u32, r: r.next_u64() }
+        Scn { family: r.below(6) as u8, kind: r.below(6) as u8, n: *r.pick(&[0u16, 1, 2, 3, 10, 70, 255, 300, 1000, 3000]), damage: r.below(9) as u8, a: r.next_u64() as u32, b: r.next_u64() as u32, r: r.next_u64() }
     }
 
     fn execute(scn: &Scn, _prop: &str, stats: &mut Stats) -> Outcome {
         let base = build(scn);
         let mut violations = Vec::new();
         let mut fp = 0u64;
-        let variants: Vec<usize> = if scn.damage % 7 == 6 { (0..=base.len().min(700)).collect() } else { vec![0] };
+        let variants: Vec<usize> = if scn.damage % 9 == 6 { (0..=base.len().min(700)).collect() } else { vec![0] };
         for v in variants {
             let bytes = damage(&base, scn, v);
             for pv in 0..2u8 {
@@ -204,7 +219,7 @@ impl Harness for Parsers {
                 fp = (fp ^ (r.is_ok() as u64) ^ (bytes.len() as u64) << 8).wrapping_mul(0x100000001b3);
                 if let Err(m) = r {
                     let fam = ["udp-request", "udp-response", "http-request", "http-response", "ws-in-message", "ws-out-message"][scn.family as usize % 6];
-                    violations.push(Violation::new("C12", "parser-no-panic", &format!("{}-parser-panic", fam), format!("{} parser panicked on a {}-byte input (damage {}, first bytes {:?}): {}", fam, bytes.len(), scn.damage % 7, &bytes[..bytes.len().min(40)], m)));
+                    violations.push(Violation::new("C12", "parser-no-panic", &format!("{}-parser-panic", fam), format!("{} parser panicked on a {}-byte input (damage {}, first bytes {:?}): {}", fam, bytes.len(), scn.damage % 9, &bytes[..bytes.len().min(40)], m)));
                     return Outcome { violations, fingerprint: fp, signature: None };
                 }
                 // the harness' own copy of the input (text conversion) is included in `used`: allow for it
